@@ -47,8 +47,8 @@ func cmdDump(args []string) int {
 			case *ssa.Store:
 				fmt.Printf("%s: store %s <- %v\n", p.Pos(ins.Pos()), an.OriginStrings(an.Origins(x.Addr, an.FlowOpts{})), an.OriginStrings(an.Origins(x.Val, an.FlowOpts{})))
 			case *ssa.Return:
-				for i, r := range x.Results {
-					fmt.Printf("%s: return#%d %v\n", p.Pos(ins.Pos()), i, an.OriginStrings(an.Origins(r, an.FlowOpts{})))
+				for i := range x.Results {
+					fmt.Printf("%s: return#%d %v\n      shape: %s\n", p.Pos(ins.Pos()), i, an.OriginStrings(an.Origins(an.RetVal(x, i), an.FlowOpts{})), an.Shape(an.RetVal(x, i)))
 				}
 			}
 		})
